@@ -499,6 +499,7 @@ func mixCase(hseed uint64) {
 	}
 	jobs := make([]job, n)
 	w.perJobFetch = map[int]int{}
+	w.jobEvents, w.jobAnswers = map[int][]string{}, map[int][]string{}
 	w.cancelAt401 = map[int]context.CancelFunc{}
 	w.noRedirect = true
 	w.fetchHook = func(req *http.Request) error {
@@ -589,6 +590,70 @@ func mixCase(hseed uint64) {
 	setTraceCase(tc, "mix-"+flavour)
 	w.mu.Lock()
 	defer w.mu.Unlock()
+	// every call on its own, replayed on Client.Do-with-oracle-reads (Model/AuthConc.v):
+	// what the cache told it and what the servers answered must give exactly its sends
+	for i := range jobs {
+		jb := &jobs[i]
+		if jb.cancelFetch || jb.cancel401 {
+			continue
+		}
+		var rd *jobReads
+		if tc != nil {
+			tc.mu.Lock()
+			rd = tc.reads[i]
+			tc.mu.Unlock()
+		}
+		if rd == nil {
+			rd = &jobReads{scheme: "-"}
+		}
+		if rd.setCalls > 0 && !rd.fetched {
+			run.Count("mixjob/unjudged-shared-fetch") // it received another call's token: outside do_request_rd
+			continue
+		}
+		o := 0
+		if oauth2 {
+			o = 1
+		}
+		var sb strings.Builder
+		fmt.Fprintf(&sb, "J %s %d %d", flavour, o, len(w.regs))
+		for _, g := range w.regs {
+			fmt.Fprintf(&sb, " %d %s", g.idx, credFlags(g.clientCred))
+		}
+		fmt.Fprintf(&sb, " %d", len(w.ptable))
+		for _, e := range w.ptable {
+			sb.WriteString(" " + e)
+		}
+		body := "none"
+		if jb.method == "PUT" {
+			body = "rewind"
+		}
+		fmt.Fprintf(&sb, " %d %s %s %s %s", jb.g.idx, body, hexList(jb.hints), hexList(jb.ghints), rd.scheme)
+		if rd.tok1 != "" {
+			sb.WriteString(" " + w.projectToken(rd.tok1Scheme, rd.tok1))
+		} else {
+			sb.WriteString(" -")
+		}
+		fmt.Fprintf(&sb, " %d", len(rd.tok2))
+		for _, t2 := range rd.tok2 {
+			if t2.found {
+				fmt.Fprintf(&sb, " %s %s", common.Hex(t2.key), w.projectToken(t2.scheme, t2.tok))
+			} else {
+				fmt.Fprintf(&sb, " %s -", common.Hex(t2.key))
+			}
+		}
+		ans := w.jobAnswers[i]
+		fmt.Fprintf(&sb, " %d", len(ans))
+		for _, a := range ans {
+			sb.WriteString(" " + a)
+		}
+		impl := strings.Join(append(append([]string{}, w.jobEvents[i]...), results[i]), " ")
+		if tc != nil && len(rd.sets) > 0 {
+			st := rd.sets[len(rd.sets)-1]
+			impl += fmt.Sprintf(" +%s:%s:%s", strings.ToLower(st.scheme.String()), common.Hex(st.key), w.projectToken(st.scheme, st.tok))
+		}
+		run.Case(run.NewID(), sb.String(), impl)
+		run.Count("mixjob/" + flavour)
+	}
 	run.Evaluations++
 	run.Count("mix/" + flavour)
 	run.Nontrivial(fmt.Sprintf("M%d", hseed))
